@@ -230,6 +230,8 @@ fn boundary_case(case: u64, part: u64, stride: u64) -> CaseOut {
     let magnitudes: &[i64] = &[
         0, 1, 7, 8, 255, 256, 32766, 32767, 32768, 32769, 65534, 65535, 65536, 65537, 2147483646, 2147483647,
         2147483648, 2147483649, 4294967295, 4294967296, 9999999999,
+        // more than 32 bits whose low 32 bits are a small number or a fine address (no bit 31 on the way)
+        0x1_0000_002A, 0x1_0000_3002, 0x3_0000_3001, 0x1_0000_0001, 0x1_0000_0002, 0x10_0000_3000, 0x7_0000_0007, 0x100_0000_0001,
     ];
     for m in magnitudes {
         let spell: Vec<String> = vec![
